@@ -26,7 +26,7 @@ ASSUMPTIONS = ["payload type of the scenarios is hio::V (u64 | byte string | fai
                "decode_with/encode_with calls (C01/C04)",
                "the debug-profile overflow panic of `buffer.len() as u32 - 4` for payloads of 2^32-4..2^32-1 bytes is out of reach of the streams"]
 
-SMALL = ["-", "u5", "u24", "u300", "b-", "b01", "b0102", "u5,u6", "u5,b-", "b-,u24", "u24,u24", "b01,b02", "u65536",
+SMALL = ["-", "t5", "t24,u6", "u5,t300", "u5", "u24", "u300", "b-", "b01", "b0102", "u5,u6", "u5,b-", "b-,u24", "u24,u24", "b01,b02", "u65536",
          "b01020304050607", "u5,u23", "b0102,u24", "u300,u300", "u5,u6,u7"]
 MEDIUM = ["u5,b0102,u300", "b000102030405060708090a0b0c0d0e0f1011121314151617,u1", "u18446744073709551615,b-,u0",
           "b" + "ab" * 30 + ",u70000,b" + "cd" * 24]
